@@ -133,7 +133,12 @@ def builder(chk, P, rule):
     ci = P.cls(E.BUILDER_MOD, "EAM_Potential_Builder_FS")
     site = ci.lookup("eam_potentials").site()
     pairs = [("Fe", "Al"), ("Al", "Fe"), ("Al", "Al")]
-    dens = [((a, b), W.param("defn_%s_%s" % (a, b))) for a, b in pairs]
+    # concrete definitions as the parser delivers them; Fe->Al and Al->Fe use the same forms and parameters and differ only in
+    # where the second range starts, Al->Al only in the marker of that range
+    specs = {("Fe", "Al"): ("as.polynomial", [0, 3], (">=", 0), ("as.zero", [], (">", 2), None)),
+             ("Al", "Fe"): ("as.polynomial", [0, 3], (">=", 0), ("as.zero", [], (">", 3), None)),
+             ("Al", "Al"): ("as.polynomial", [0, 3], (">=", 0), ("as.zero", [], (">=", 3), None))}
+    dens = [((a, b), specs[(a, b)]) for a, b in pairs]
     embed = [("Fe", W.param("F_Fe")), ("Al", W.param("F_Al"))]
     out = E.build(P, W.make_interp, True, embed, dens)
     if out[1] != "ok":
@@ -150,8 +155,8 @@ def builder(chk, P, rule):
         return None
     for a, bb in pairs:
         got = slot(a, bb)
-        want = E.built(W.param("defn_%s_%s" % (a, bb)))
-        chk.ob(rule, "entry '%s->%s' is stored at EAMPotential(%s).electronDensityFunction[%s]" % (a, bb, a, bb),
+        want = E.built(E.defn_value(I, P, specs[(a, bb)]))
+        chk.ob(rule, "entry '%s->%s' is stored at EAMPotential(%s).electronDensityFunction[%s] (its own definition, ranges included)" % (a, bb, a, bb),
                got is not None and got.key() == want.key(), site=site, found=got, expect=want, key="%s|store|%s->%s" % (rule, a, bb))
     z = _zero_at(I, slot("Fe", "Fe"))
     chk.ob(rule, "the undeclared slot Fe->Fe holds the zero function, not a transposed entry", isinstance(z, Num) and z.const() == 0,
